@@ -11,41 +11,94 @@ from vlib import edits, gen, monitors
 from vlib.monitors import Broken
 
 
-def trees_equivalent(a, b, tds, rel=1e-8):
-    """C15 oracle for a restored copy: same clades, outliers, node labels, per-node vectors, joint densities."""
-    if sorted(map(repr, a.nodes)) != sorted(map(repr, b.nodes)):
-        raise Broken("restored tree has different clone names", {"a": sorted(map(repr, a.nodes)), "b": sorted(map(repr, b.nodes))})
-    if a.labels != b.labels:
-        raise Broken("restored tree assigns data points to different clones")
+def clade_names(tree):
+    """{clade (frozenset of data idx): clone name}; None if two clones share a clade (empty clones)."""
+    node_data = tree.node_data
+    out = {}
+
+    def rec(node):
+        s = set(dp.idx for dp in node_data.get(node, []))
+        for c in tree.get_children(node):
+            s |= rec(c)
+        fs = frozenset(s)
+        out[fs] = None if fs in out else node
+        return s
+
+    for r in tree.roots:
+        rec(r)
+    return out
+
+
+def trees_equivalent(a, b, tds, rel=1e-8, strict_names=True):
+    """C15 oracle for a restored copy: same clades, outliers, node labels, per-node vectors, joint densities.
+    strict_names=False (after a relabel applied to both): clones are matched by clade instead of by name."""
     if sorted(dp.idx for dp in a.outliers) != sorted(dp.idx for dp in b.outliers):
         raise Broken("restored tree has different outliers")
-    for n in a.nodes:
-        if a.get_parent(n) != b.get_parent(n):
-            raise Broken("restored tree has a different parent for a clone", {"clone": repr(n)})
     if gen.tree_key(a) != gen.tree_key(b):
-        raise Broken("restored tree has different clades")
+        raise Broken("restored tree has different clades",
+                     {"orig": gen.key_str(gen.tree_key(a)), "restored": gen.key_str(gen.tree_key(b))})
+    ca, cb = clade_names(a), clade_names(b)
+    if strict_names:
+        if sorted(map(repr, a.nodes)) != sorted(map(repr, b.nodes)):
+            raise Broken("restored tree has different clone names",
+                         {"a": sorted(map(repr, a.nodes)), "b": sorted(map(repr, b.nodes))})
+        if a.labels != b.labels:
+            raise Broken("restored tree assigns data points to different clones")
+        for n in a.nodes:
+            if a.get_parent(n) != b.get_parent(n):
+                raise Broken("restored tree has a different parent for a clone", {"clone": repr(n)})
+        if a.node_last_added_to != b.node_last_added_to:
+            raise Broken("restored tree lost the last-edited clone")
     va, vb = monitors.node_vectors(a), monitors.node_vectors(b)
     worst = 0.0
-    has_child = len(a.roots) > 0
-    for name in va:
-        if name == a.root_node_name and not has_child:
-            continue
+    pairs = [(ca[c], cb[c], c) for c in ca if ca[c] is not None and cb.get(c) is not None]
+    if len(a.roots) > 0:
+        pairs.append((a.root_node_name, b.root_node_name, "root"))
+    win = None
+    outside = 0
+    for na, nb, clade in pairs:
         for k, which in ((0, "own"), (1, "subtree")):
-            ok, dev = monitors.close(va[name][k], vb[name][k], rel)
+            ok, dev = monitors.close(va[na][k], vb[nb][k], rel)
+            if not ok and k == 1:
+                if win is None:
+                    forest, names = gen.tree_to_forest(a)
+                    win = (monitors.Window(forest, {dp.idx: dp for dp in a.data}, a.grid_size), names)
+                which_i = "root" if clade == "root" else win[1].index(na)
+                if not win[0].real(which_i, va[na][k], vb[nb][k], rel):
+                    outside += 1
+                    continue
             worst = max(worst, dev if np.isfinite(dev) else 0.0)
             if not ok:
-                raise Broken("restored tree's %s likelihood vector differs" % which, {"clone": repr(name), "dev": dev})
-    for td in tds:
-        for fn in ("log_p", "log_p_one"):
-            x, y = float(getattr(td, fn)(a)), float(getattr(td, fn)(b))
-            ok, dev = monitors.close(x, y, rel)
-            if not ok:
-                raise Broken("restored tree's %s differs" % fn, {"orig": x, "restored": y})
+                raise Broken("restored tree's %s likelihood vector differs" % which, {"clone": repr(na), "dev": dev})
+    if not outside:
+        for td in tds:
+            for fn in ("log_p", "log_p_one"):
+                x, y = float(getattr(td, fn)(a)), float(getattr(td, fn)(b))
+                ok, dev = monitors.close(x, y, rel)
+                if not ok:
+                    raise Broken("restored tree's %s differs" % fn, {"orig": x, "restored": y})
     if not (a == b) or hash(a) != hash(b):
         raise Broken("restored tree does not compare / hash equal to the original")
-    if a.node_last_added_to != b.node_last_added_to:
-        raise Broken("restored tree lost the last-edited clone")
     return worst
+
+
+def translate(d, main, shadow):
+    """Re-express an edit descriptor chosen on the main tree in the shadow's clone names (matched by clade)."""
+    cm, cs = clade_names(main), clade_names(shadow)
+    inv = {repr(n): c for c, n in cm.items() if n is not None}
+
+    def tr(name):
+        if name is None or name == main.outlier_node_name or name == main.root_node_name:
+            return name
+        return cs[inv[repr(name)]]
+
+    out = dict(d)
+    for k in ("node", "src", "dst", "parent", "root"):
+        if k in out:
+            out[k] = tr(out[k])
+    if "children" in out:
+        out["children"] = [tr(c) for c in out["children"]]
+    return out
 
 
 def restore(tree, how, tmpdir):
@@ -119,8 +172,10 @@ def history_task(task):
                     if "serial" in mons:
                         keep = []
                         for sh in shadows:
-                            sh[0] = hist.apply(sh[0], d)
-                            dev = trees_equivalent(new, sh[0], tds)
+                            strict = sh[3] and d["op"] != "relabel"
+                            sh[3] = strict
+                            sh[0] = hist.apply(sh[0], d if strict else translate(d, old, sh[0]))
+                            dev = trees_equivalent(new, sh[0], tds, strict_names=strict)
                             part.count("serial_followup_evaluations")
                             part.maxi("max_serial_dev", dev)
                             monitors.tree_wellformed(sh[0])
@@ -140,7 +195,7 @@ def history_task(task):
                             if len(new.nodes) == 0 and len(new.outliers) > 0:
                                 part.count("serial_roundtrips_outlier_only")
                             monitors.tree_wellformed(r)
-                            shadows.append([r, how, 12])
+                            shadows.append([r, how, 12, True])
                     part.see("%s|%s" % (d["op"], gen.key_str(gen.tree_key(new))))
                 if len(part.samples) < 2:
                     part.sample({"case": case, "first_ops": hist.log[:6], "final": gen.key_str(gen.tree_key(hist.tree))})
